@@ -182,6 +182,11 @@ impl<'r> Gen<'r> {
 
     /// Add one random operator to `s`. Returns false if nothing applicable was found.
     pub fn add_op(&mut self, s: &mut Scope, allow_cf: bool) -> bool {
+        // a quarter of the operators come from the extended palette (every remaining in-place capable
+        // family, pooling/convolution, scatter/gather, multi-output and sequence operators)
+        if self.r.chance(1, 4) {
+            return self.add_extended_op(s);
+        }
         let k = self.r.below(if allow_cf && s.depth < 2 { 30 } else { 26 });
         match k {
             0..=3 => {
@@ -210,6 +215,16 @@ impl<'r> Gen<'r> {
                 }
                 let Some(x) = self.pick_val(s, |v| v.ty != Ty::B) else { return false };
                 let to = if x.ty == Ty::F { Ty::I } else { Ty::F };
+                // keep integers small: infinities would become i32::MIN/MAX, and integer kernels overflow
+                let x = if x.ty == Ty::F {
+                    let name_lo = self.fresh("k");
+                    let name_hi = self.fresh("k");
+                    s.inits.push(Tensor::f32(&name_lo, &[], &[-100.0]));
+                    s.inits.push(Tensor::f32(&name_hi, &[], &[100.0]));
+                    self.emit(s, "Clip", &[&x.name, &name_lo, &name_hi], Ty::F, x.shape.clone(), vec![])
+                } else {
+                    x
+                };
                 self.emit(s, "Cast", &[&x.name], to, x.shape.clone(), vec![("to", Attr::Int(onnx_ty(to) as i64))]);
                 true
             }
@@ -453,6 +468,400 @@ impl<'r> Gen<'r> {
             }
             26 | 27 => self.add_if(s),
             _ => self.add_loop(s),
+        }
+    }
+
+    fn scalar_i64(&mut self, s: &mut Scope, v: &[i64]) -> String {
+        let name = self.fresh("k");
+        s.inits.push(i64s(&name, v));
+        name
+    }
+
+    /// Operators beyond the core palette. Shapes recorded for the outputs are predictions used only to
+    /// pick compatible operands later; a wrong prediction merely makes a later operator fail the same
+    /// way under every strategy.
+    fn add_extended_op(&mut self, s: &mut Scope) -> bool {
+        let io = self.int_only;
+        match self.r.below(24) {
+            0 | 1 => {
+                // the rest of the unary float family (one macro in rten, but one kernel each)
+                if io {
+                    return false;
+                }
+                let Some(x) = self.pick_val(s, |v| v.ty == Ty::F) else { return false };
+                let op = *self.r.pick(&["Acos", "Asin", "Atan", "Acosh", "Asinh", "Atanh", "Cos", "Cosh", "Elu", "Gelu", "HardSigmoid", "HardSwish", "Log", "Reciprocal", "Round", "Sin", "Sinh", "Softplus", "Tan", "Swish"]);
+                let attrs = match op {
+                    "Elu" | "Swish" => vec![("alpha", Attr::Float(0.5))],
+                    "HardSigmoid" => vec![("alpha", Attr::Float(0.25)), ("beta", Attr::Float(0.5))],
+                    _ => vec![],
+                };
+                self.emit(s, op, &[&x.name], Ty::F, x.shape.clone(), attrs);
+                true
+            }
+            2 => {
+                if io {
+                    return false;
+                }
+                let Some(x) = self.pick_val(s, |v| v.ty == Ty::F) else { return false };
+                let op = *self.r.pick(&["IsNaN", "IsInf"]);
+                self.emit(s, op, &[&x.name], Ty::B, x.shape.clone(), vec![]);
+                true
+            }
+            3 => {
+                // Pow / PRelu / Mod / comparisons with equality
+                let Some(a) = self.pick_val(s, |v| v.ty != Ty::B) else { return false };
+                match self.r.below(4) {
+                    0 if a.ty == Ty::F => {
+                        let e = self.add_const(s, Ty::F, &[]);
+                        let (x, y) = if self.r.chance(3, 4) { (&a, &e) } else { (&e, &a) };
+                        self.emit(s, "Pow", &[&x.name, &y.name], Ty::F, a.shape.clone(), vec![]);
+                    }
+                    1 if a.ty == Ty::F => {
+                        let shape: Vec<usize> = if self.r.bool() { vec![] } else { vec![*a.shape.last().unwrap_or(&1)] };
+                        let slope = self.add_const(s, Ty::F, &shape);
+                        self.emit(s, "PRelu", &[&a.name, &slope.name], Ty::F, a.shape.clone(), vec![]);
+                    }
+                    2 => {
+                        // non-zero divisor
+                        let name = self.fresh("k");
+                        let d = *self.r.pick(&[2i32, 3, -2, 5]);
+                        if a.ty == Ty::F {
+                            s.inits.push(Tensor::f32(&name, &[], &[d as f32]));
+                        } else {
+                            s.inits.push(Tensor::i32(&name, &[], &[d]));
+                        }
+                        let fmod = (a.ty == Ty::F) as i64;
+                        self.emit(s, "Mod", &[&a.name, &name], a.ty, a.shape.clone(), vec![("fmod", Attr::Int(fmod))]);
+                    }
+                    _ => {
+                        let Some(b) = self.pick_val(s, |v| v.ty == a.ty && broadcast(&a.shape, &v.shape).is_some()) else { return false };
+                        let shape = broadcast(&a.shape, &b.shape).unwrap();
+                        let op = *self.r.pick(&["GreaterOrEqual", "LessOrEqual"]);
+                        self.emit(s, op, &[&a.name, &b.name], Ty::B, shape, vec![]);
+                    }
+                }
+                true
+            }
+            4 => {
+                // variadic Mean / Sum / Max / Min
+                if io {
+                    return false;
+                }
+                let Some(a) = self.pick_val(s, |v| v.ty == Ty::F) else { return false };
+                let n = self.r.urange(1, 3);
+                let mut names = vec![a.name.clone()];
+                let mut shape = a.shape.clone();
+                for _ in 1..n {
+                    let sh = shape.clone();
+                    let b = if self.r.chance(1, 3) { a.clone() } else { self.pick_val(s, |v| v.ty == Ty::F && broadcast(&sh, &v.shape).is_some()).unwrap_or(a.clone()) };
+                    shape = broadcast(&shape, &b.shape).unwrap_or(shape);
+                    names.push(b.name);
+                }
+                let refs: Vec<&str> = names.iter().map(|x| x.as_str()).collect();
+                let op = *self.r.pick(&["Mean", "Sum", "Max", "Min"]);
+                self.emit(s, op, &refs, Ty::F, shape, vec![]);
+                true
+            }
+            5 => {
+                // Squeeze a size-1 axis
+                let Some(x) = self.pick_val(s, |v| v.shape.iter().any(|d| *d == 1)) else { return false };
+                let axes: Vec<usize> = (0..x.shape.len()).filter(|a| x.shape[*a] == 1).collect();
+                let axis = *self.r.pick(&axes);
+                let mut shape = x.shape.clone();
+                shape.remove(axis);
+                let name = self.scalar_i64(s, &[axis as i64]);
+                self.emit(s, "Squeeze", &[&x.name, &name], x.ty, shape, vec![]);
+                true
+            }
+            6 => {
+                // normalisation over channels: [N, C, ...]
+                if io {
+                    return false;
+                }
+                let Some(x) = self.pick_val(s, |v| v.ty == Ty::F && v.shape.len() >= 3 && v.numel() > 0) else { return false };
+                let c = x.shape[1];
+                let scale = self.add_const(s, Ty::F, &[c]);
+                let bias = self.add_const(s, Ty::F, &[c]);
+                if self.r.bool() {
+                    let mean = self.add_const(s, Ty::F, &[c]);
+                    let name = self.fresh("k");
+                    let var: Vec<f32> = (0..c).map(|_| 0.25 * self.r.range(1, 8) as f32).collect();
+                    s.inits.push(Tensor::f32(&name, &[c as i64], &var));
+                    self.emit(s, "BatchNormalization", &[&x.name, &scale.name, &bias.name, &mean.name, &name], Ty::F, x.shape.clone(), vec![("epsilon", Attr::Float(1e-5))]);
+                } else {
+                    self.emit(s, "InstanceNormalization", &[&x.name, &scale.name, &bias.name], Ty::F, x.shape.clone(), vec![("epsilon", Attr::Float(1e-5))]);
+                }
+                true
+            }
+            7 => {
+                if io {
+                    return false;
+                }
+                let Some(x) = self.pick_val(s, |v| v.ty == Ty::F && !v.shape.is_empty() && v.numel() > 0) else { return false };
+                if self.r.bool() {
+                    let d = *x.shape.last().unwrap();
+                    let scale = self.add_const(s, Ty::F, &[d]);
+                    self.emit(s, "RMSNormalization", &[&x.name, &scale.name], Ty::F, x.shape.clone(), vec![("axis", Attr::Int(-1)), ("epsilon", Attr::Float(1e-5))]);
+                } else {
+                    let axis = self.r.usize_below(x.shape.len()) as i64;
+                    let p = *self.r.pick(&[1i64, 2]);
+                    self.emit(s, "LpNormalization", &[&x.name], Ty::F, x.shape.clone(), vec![("axis", Attr::Int(axis)), ("p", Attr::Int(p))]);
+                }
+                true
+            }
+            8 => {
+                // more reductions
+                let Some(x) = self.pick_val(s, |v| v.ty != Ty::B && !v.shape.is_empty() && v.numel() > 0) else { return false };
+                let axis = self.r.usize_below(x.shape.len());
+                let keep = self.r.bool();
+                let mut shape = x.shape.clone();
+                if keep {
+                    shape[axis] = 1;
+                } else {
+                    shape.remove(axis);
+                }
+                let name = self.scalar_i64(s, &[axis as i64]);
+                let op = if x.ty == Ty::F { *self.r.pick(&["ReduceMin", "ReduceProd", "ReduceSumSquare", "ReduceLogSumExp", "ReduceLogSum", "ReduceL2"]) } else { "ReduceMin" };
+                if op == "ReduceL2" {
+                    return false;
+                }
+                self.emit(s, op, &[&x.name, &name], x.ty, shape, vec![("keepdims", Attr::Int(keep as i64))]);
+                true
+            }
+            9 => {
+                let Some(x) = self.pick_val(s, |v| v.ty != Ty::B && !v.shape.is_empty() && v.numel() > 0) else { return false };
+                let axis = self.r.usize_below(x.shape.len());
+                let name = self.fresh("k");
+                s.inits.push(Tensor::i32(&name, &[], &[axis as i32]));
+                let (ex, rev) = (self.r.bool() as i64, self.r.bool() as i64);
+                self.emit(s, "CumSum", &[&x.name, &name], x.ty, x.shape.clone(), vec![("exclusive", Attr::Int(ex)), ("reverse", Attr::Int(rev))]);
+                true
+            }
+            10 => {
+                let Some(x) = self.pick_val(s, |v| !v.shape.is_empty() && v.numel() > 0 && v.numel() <= 64) else { return false };
+                let reps: Vec<usize> = x.shape.iter().map(|_| *self.r.pick(&[1usize, 1, 2, 3])).collect();
+                let shape: Vec<usize> = x.shape.iter().zip(&reps).map(|(d, r)| d * r).collect();
+                let name = self.scalar_i64(s, &reps.iter().map(|r| *r as i64).collect::<Vec<_>>());
+                self.emit(s, "Tile", &[&x.name, &name], x.ty, shape, vec![]);
+                true
+            }
+            11 => {
+                let Some(x) = self.pick_val(s, |v| v.ty != Ty::B && !v.shape.is_empty() && v.numel() > 0) else { return false };
+                let rank = x.shape.len();
+                let pads: Vec<usize> = (0..2 * rank).map(|_| *self.r.pick(&[0usize, 0, 1, 2])).collect();
+                let shape: Vec<usize> = (0..rank).map(|i| x.shape[i] + pads[i] + pads[i + rank]).collect();
+                let name = self.scalar_i64(s, &pads.iter().map(|p| *p as i64).collect::<Vec<_>>());
+                let mode = if self.r.chance(1, 3) && x.shape.iter().all(|d| *d >= 3) { "reflect" } else { "constant" };
+                let mut ins = vec![x.name.clone(), name];
+                if mode == "constant" && self.r.bool() {
+                    let c = self.add_const(s, x.ty, &[]);
+                    ins.push(c.name);
+                }
+                let refs: Vec<&str> = ins.iter().map(|x| x.as_str()).collect();
+                self.emit(s, "Pad", &refs, x.ty, shape, vec![("mode", Attr::Str(mode.into()))]);
+                true
+            }
+            12 => {
+                let Some(x) = self.pick_val(s, |v| v.ty != Ty::B && v.shape.len() >= 2 && v.numel() > 0) else { return false };
+                let upper = self.r.bool() as i64;
+                if self.r.bool() {
+                    let kv = self.r.range(-1, 1);
+                    let k = self.scalar_i64(s, &[kv]);
+                    let k_scalar = self.fresh("k");
+                    // scalar k: reshape the 1-element initializer into rank 0
+                    if let Some(t) = s.inits.iter().find(|t| t.name == k).cloned() {
+                        let mut t2 = t;
+                        t2.name = k_scalar.clone();
+                        t2.dims = vec![];
+                        s.inits.push(t2);
+                    }
+                    self.emit(s, "Trilu", &[&x.name, &k_scalar], x.ty, x.shape.clone(), vec![("upper", Attr::Int(upper))]);
+                } else {
+                    self.emit(s, "Trilu", &[&x.name], x.ty, x.shape.clone(), vec![("upper", Attr::Int(upper))]);
+                }
+                true
+            }
+            13 => {
+                let Some(x) = self.pick_val(s, |v| v.ty != Ty::B && !v.shape.is_empty() && v.numel() > 0) else { return false };
+                let axis = self.r.usize_below(x.shape.len());
+                let keep = self.r.bool();
+                let mut shape = x.shape.clone();
+                if keep {
+                    shape[axis] = 1;
+                } else {
+                    shape.remove(axis);
+                }
+                let op = *self.r.pick(&["ArgMax", "ArgMin"]);
+                self.emit(s, op, &[&x.name], Ty::I, shape, vec![("axis", Attr::Int(axis as i64)), ("keepdims", Attr::Int(keep as i64))]);
+                true
+            }
+            14 => {
+                // TopK: multi-output
+                let Some(x) = self.pick_val(s, |v| v.ty != Ty::B && !v.shape.is_empty() && v.numel() > 0) else { return false };
+                let axis = self.r.usize_below(x.shape.len());
+                let k = self.r.urange(1, x.shape[axis]);
+                let kname = self.scalar_i64(s, &[k as i64]);
+                let (o1, o2) = (self.fresh("v"), self.fresh("v"));
+                let largest = self.r.bool() as i64;
+                let n = Node::new("TopK", &[&x.name, &kname], &[&o1, &o2]).named(&self.fresh("n")).attr("axis", Attr::Int(axis as i64)).attr("largest", Attr::Int(largest));
+                s.nodes.push(n);
+                let mut shape = x.shape.clone();
+                shape[axis] = k;
+                for (o, ty) in [(o1, x.ty), (o2, Ty::I)] {
+                    let v = Val { name: o, ty, shape: shape.clone() };
+                    s.vals.push(v.clone());
+                    s.own.push(v);
+                }
+                true
+            }
+            15 => {
+                // GatherElements / ScatterElements with constant indices
+                let Some(x) = self.pick_val(s, |v| v.ty != Ty::B && !v.shape.is_empty() && v.numel() > 0) else { return false };
+                let axis = self.r.usize_below(x.shape.len());
+                let mut ishape = x.shape.clone();
+                ishape[axis] = self.r.urange(1, x.shape[axis]);
+                let n: usize = ishape.iter().product();
+                let idx: Vec<i32> = (0..n).map(|_| self.r.usize_below(x.shape[axis]) as i32).collect();
+                let iname = self.fresh("k");
+                s.inits.push(Tensor::i32(&iname, &ishape.iter().map(|d| *d as i64).collect::<Vec<_>>(), &idx));
+                if self.r.bool() {
+                    self.emit(s, "GatherElements", &[&x.name, &iname], x.ty, ishape, vec![("axis", Attr::Int(axis as i64))]);
+                } else {
+                    let upd = self.add_const(s, x.ty, &ishape);
+                    let red = *self.r.pick(&["none", "add", "max"]);
+                    self.emit(s, "ScatterElements", &[&x.name, &iname, &upd.name], x.ty, x.shape.clone(), vec![("axis", Attr::Int(axis as i64)), ("reduction", Attr::Str(red.into()))]);
+                }
+                true
+            }
+            16 | 17 => {
+                // convolution and pooling on [N, C, H, W] / [N, C, W]
+                if io {
+                    return false;
+                }
+                let Some(x) = self.pick_val(s, |v| v.ty == Ty::F && (v.shape.len() == 4 || v.shape.len() == 3) && v.numel() > 0) else { return false };
+                let spatial = x.shape.len() - 2;
+                let c = x.shape[1];
+                let ks: Vec<usize> = x.shape[2..].iter().map(|d| (*self.r.pick(&[1usize, 2, 3])).min(*d)).collect();
+                let pad = self.r.bool();
+                let pads: Vec<i64> = if pad { vec![1; 2 * spatial] } else { vec![0; 2 * spatial] };
+                let out_sp: Vec<usize> = x.shape[2..].iter().zip(&ks).map(|(d, k)| d + 2 * pad as usize + 1 - k).collect();
+                match self.r.below(5) {
+                    0 | 1 => {
+                        let group = if c % 2 == 0 && self.r.chance(1, 3) { 2 } else if self.r.chance(1, 4) { c } else { 1 };
+                        let m = group * *self.r.pick(&[1usize, 2, 3]);
+                        let mut wshape = vec![m, c / group];
+                        wshape.extend(&ks);
+                        let w = self.add_const(s, Ty::F, &wshape);
+                        let mut ins = vec![x.name.clone(), w.name];
+                        if self.r.bool() {
+                            ins.push(self.add_const(s, Ty::F, &[m]).name);
+                        }
+                        let refs: Vec<&str> = ins.iter().map(|x| x.as_str()).collect();
+                        let mut shape = vec![x.shape[0], m];
+                        shape.extend(&out_sp);
+                        self.emit(s, "Conv", &refs, Ty::F, shape, vec![("group", Attr::Int(group as i64)), ("pads", Attr::Ints(pads)), ("kernel_shape", Attr::Ints(ks.iter().map(|k| *k as i64).collect()))]);
+                    }
+                    2 | 3 => {
+                        if spatial != 2 {
+                            return false;
+                        }
+                        let op = *self.r.pick(&["MaxPool", "AveragePool"]);
+                        let mut shape = vec![x.shape[0], c];
+                        shape.extend(&out_sp);
+                        self.emit(s, op, &[&x.name], Ty::F, shape, vec![("kernel_shape", Attr::Ints(ks.iter().map(|k| *k as i64).collect())), ("pads", Attr::Ints(pads)), ("strides", Attr::Ints(vec![1; spatial]))]);
+                    }
+                    _ => {
+                        let op = *self.r.pick(&["GlobalAveragePool", "GlobalMaxPool"]);
+                        let mut shape = vec![x.shape[0], c];
+                        shape.extend(std::iter::repeat(1).take(spatial));
+                        self.emit(s, op, &[&x.name], Ty::F, shape, vec![]);
+                    }
+                }
+                true
+            }
+            18 => {
+                // Shape / Size of a runtime value (not folded when the value depends on an input)
+                let Some(x) = self.pick_val(s, |_| true) else { return false };
+                if self.r.bool() {
+                    self.emit(s, "Shape", &[&x.name], Ty::I, vec![x.shape.len()], vec![]);
+                } else {
+                    self.emit(s, "Size", &[&x.name], Ty::I, vec![], vec![]);
+                }
+                true
+            }
+            19 | 20 => {
+                // sequence operators (SequenceInsert can run in place); the sequence itself is not a tensor value
+                let Some(a) = self.pick_val(s, |v| v.ty != Ty::B && !v.shape.is_empty()) else { return false };
+                let b = if self.r.chance(1, 3) { a.clone() } else { self.pick_val(s, |v| v.ty == a.ty && v.shape == a.shape).unwrap_or(a.clone()) };
+                let seq = self.fresh("sq");
+                s.nodes.push(Node::new("SequenceConstruct", &[&a.name, &b.name], &[&seq]).named(&self.fresh("n")));
+                let mut cur = seq;
+                let mut len = 2usize;
+                if self.r.bool() {
+                    let c = if self.r.bool() { a.clone() } else { self.pick_val(s, |v| v.ty == a.ty && v.shape == a.shape).unwrap_or(a.clone()) };
+                    let next = self.fresh("sq");
+                    if self.r.bool() {
+                        let pos = self.fresh("k");
+                        s.inits.push(Tensor::i32(&pos, &[], &[self.r.usize_below(len + 1) as i32]));
+                        s.nodes.push(Node::new("SequenceInsert", &[&cur, &c.name, &pos], &[&next]).named(&self.fresh("n")));
+                    } else {
+                        s.nodes.push(Node::new("SequenceInsert", &[&cur, &c.name], &[&next]).named(&self.fresh("n")));
+                    }
+                    cur = next;
+                    len += 1;
+                }
+                if self.r.chance(1, 4) {
+                    let next = self.fresh("sq");
+                    let pos = self.fresh("k");
+                    s.inits.push(Tensor::i32(&pos, &[], &[self.r.usize_below(len) as i32]));
+                    s.nodes.push(Node::new("SequenceErase", &[&cur, &pos], &[&next]).named(&self.fresh("n")));
+                    cur = next;
+                    len -= 1;
+                }
+                match self.r.below(3) {
+                    0 => {
+                        let pos = self.fresh("k");
+                        s.inits.push(Tensor::i32(&pos, &[], &[self.r.usize_below(len) as i32]));
+                        self.emit(s, "SequenceAt", &[&cur, &pos], a.ty, a.shape.clone(), vec![]);
+                    }
+                    1 => {
+                        let axis = self.r.usize_below(a.shape.len());
+                        let mut shape = a.shape.clone();
+                        shape[axis] *= len;
+                        self.emit(s, "ConcatFromSequence", &[&cur], a.ty, shape, vec![("axis", Attr::Int(axis as i64))]);
+                    }
+                    _ => {
+                        self.emit(s, "SequenceLength", &[&cur], Ty::I, vec![], vec![]);
+                    }
+                }
+                true
+            }
+            21 => {
+                // Where with three distinct operands and broadcasting
+                let Some(c) = self.pick_val(s, |v| v.ty == Ty::B) else { return false };
+                let Some(x) = self.pick_val(s, |v| v.ty != Ty::B && broadcast(&c.shape, &v.shape).is_some()) else { return false };
+                let sh = broadcast(&c.shape, &x.shape).unwrap();
+                let y = self.pick_val(s, |v| v.ty == x.ty && broadcast(&sh, &v.shape).is_some()).unwrap_or(x.clone());
+                let shape = broadcast(&sh, &y.shape).unwrap_or(sh);
+                self.emit(s, "Where", &[&c.name, &x.name, &y.name], x.ty, shape, vec![]);
+                true
+            }
+            22 => {
+                // DepthToSpace / SpaceToDepth-free: Transpose-free layout change on 4-d input
+                let Some(x) = self.pick_val(s, |v| v.shape.len() == 4 && v.shape[1] % 4 == 0 && v.numel() > 0 && v.ty == Ty::F) else { return false };
+                let shape = vec![x.shape[0], x.shape[1] / 4, x.shape[2] * 2, x.shape[3] * 2];
+                let mode = *self.r.pick(&["DCR", "CRD"]);
+                self.emit(s, "DepthToSpace", &[&x.name], x.ty, shape, vec![("blocksize", Attr::Int(2)), ("mode", Attr::Str(mode.into()))]);
+                true
+            }
+            _ => {
+                // Identity chains and Dropout-free no-ops: a value that is only renamed, then consumed twice
+                let Some(x) = self.pick_val(s, |v| v.ty != Ty::B) else { return false };
+                let y = self.emit(s, "Identity", &[&x.name], x.ty, x.shape.clone(), vec![]);
+                let op = if x.ty == Ty::F { *self.r.pick(&["Add", "Mul", "Sub"]) } else { *self.r.pick(&["Add", "Sub"]) };
+                self.emit(s, op, &[&y.name, &x.name], x.ty, x.shape.clone(), vec![]);
+                true
+            }
         }
     }
 
